@@ -314,7 +314,8 @@ def run(ctx):
         f = dm.functions[fname]
         ctx.saw(f)
         inner = [n for n in ast.walk(f.node) if isinstance(n, ast.FunctionDef) and n is not f.node]
-        ok = inner and any(isinstance(r, ast.Return) and U(r.value) == f"{orig}(array, bins, **kwargs)" for r in ast.walk(inner[0]))
+        rr_ = [U(r.value) for r in ast.walk(inner[0]) if isinstance(r, ast.Return)] if inner else []
+        ok = inner and rr_ == [f"{orig}(array, bins, **kwargs)"]
         ok = ok and any(U(kwarg(c_, "func")) == inner[0].name for c_ in calls_in(f.node) if U(c_.func) == "_run_dask")
         ctx.check(bool(ok), "C17.f", f"dask.{fname}", f"chunk function = {orig}(array, bins, **kwargs), handed to _run_dask",
                   "the per-chunk function does not call the plain facade with the caller's bins and kwargs", f.where)
